@@ -156,6 +156,11 @@ class Verdict:
             print(f"VIOLATION property={self.prop} replay={rp}")
             print(f"  clause={clause} sig={sig} cases={len(items)} first={json.dumps(items[0], sort_keys=True)[:600]}")
             rc = 1
+        # scenarios the tool could not be observed on (it crashed, timed out or wrote nothing) are not decided: never a silent pass
+        for key in ("unobservable", "unobservable_packs"):
+            items_ = self.extra.get(key)
+            if isinstance(items_, list) and items_:
+                self.machinery_errors.append(f"{len(items_)} scenario(s) could not be observed, first: {json.dumps(items_[0], default=str)[:400]}")
         if self.machinery_errors:
             for m in self.machinery_errors:
                 print(f"MACHINERY-ERROR property={self.prop} {m}")
